@@ -172,6 +172,13 @@ theorem run_bind (env : Env) (p : Prog α) (f : α → Prog β) (fs : FS) :
     rw [ih]
     simp
 
+/-- The empty fault plan is the healthy run. -/
+theorem runFault_none (env : Env) (p : Prog α) (fs : FS) (i : Nat) :
+    runFault env (fun _ => none) p fs i = run env p fs := by
+  induction p generalizing fs i with
+  | done a => rfl
+  | sys c k ih => simp only [runFault, run, ih]
+
 /-! ### the demonic weakest precondition -/
 
 /-- The outcomes one call can have: it succeeds (healthy semantics), or it fails with any error
